@@ -2,7 +2,7 @@
 
 from typing import Any, Callable, Mapping, Optional, Sequence, Type, cast
 
-from ..exc import InvalidOperationError
+from ..exc import InvalidOperationError, ResolverError
 from ..lang import ast as _ast
 from ..schema import Schema
 from ..utilities import coerce_variable_values
@@ -116,17 +116,20 @@ def execute(
         cast(Instrumentation, instrumentation).on_execution_end()
         return GraphQLResult(data=data, errors=executor.errors)
 
+    try:
+        root_fields = executor.collect_fields(
+            root_type, operation.selection_set.selections
+        )
+    except ResolverError as err:
+        # The root selection set itself cannot be collected (invalid `@skip` /
+        # `@include` condition at runtime): no data, one error.
+        instrumentation.on_execution_end()
+        return runtime.ensure_wrapped(GraphQLResult(data=None, errors=[err]))
+
     return runtime.ensure_wrapped(
         runtime.map_value(
             runtime.unwrap_value(
-                exe_fn(
-                    root_type,
-                    initial_value,
-                    [],
-                    executor.collect_fields(
-                        root_type, operation.selection_set.selections
-                    ),
-                )
+                exe_fn(root_type, initial_value, [], root_fields)
             ),
             _on_finish,
         )
